@@ -24,7 +24,7 @@ def gen(rng, tier, index):
     nb = 1 << info["bankbits"]
     nrows = 1 << info["rowbits"]
     # mode: where the adversaries aim relative to the victim's banks
-    mode = rng.choice(["otherbank", "otherbank", "otherbank", "samebank_bursty", "samebank_bursty", "samebank_continuous"])
+    mode = rng.choice(["otherbank", "otherbank", "direction", "direction", "samebank_bursty", "samebank_bursty", "samebank_continuous"])
     vbanks = rng.sample(range(nb), rng.choice([1, 1, min(2, nb - 1)]) if nb > 1 else 1)
     others = [b for b in range(nb) if b not in vbanks] or vbanks
     ranks = range(core["nranks"])
@@ -35,14 +35,22 @@ def gen(rng, tier, index):
     hot_v = hot_of(vbanks, rng.choice([1, 2]))
     ports = []
     vn = rng.choice([3, 6, 12])
+    # mode "direction": every adversary streams one direction (never drying up: row hits on one bank, row changes on another,
+    # so that commands and activates of that direction are always there), the victim needs the other direction
+    adv_dir = rng.choice([0.0, 1.0])
     ports.append({"ops": coregen.gen_port_ops(rng, amap, info, vn, hot_v, style="rand", delays="gaps", id0=1,
-                                              wmix=rng.choice([0.0, 1.0, 0.5])), "loop": True})
+                                              wmix=(1.0 - adv_dir) if mode == "direction" else rng.choice([0.0, 1.0, 0.5])), "loop": True})
     depth = core["ctrl"]["cmd_buffer_depth"]
     for i in range(1, nports):
         kind = rng.choice(["samerow", "hammer", "pingpong", "rand"])
         wmix = rng.choice([0.0, 1.0, 0.5, 1.0, 0.0])
         n = rng.choice([50, 200, 1000])
-        if mode == "otherbank":
+        if mode == "direction":
+            kind = ["hammer", "pingpong", "samerow", "pingpong"][(i - 1) % 4]
+            wmix = adv_dir
+            ob = others[(i - 1) % len(others)]
+            hot_a = hot_of([ob], 2 if kind == "pingpong" else 1)
+        elif mode == "otherbank":
             hot_a = hot_of(rng.sample(others, rng.choice([1, min(2, len(others))])), rng.choice([1, 2, 3]))
         else:
             hot_a = hot_of(vbanks if rng.random() < 0.7 else list(range(nb)), rng.choice([1, 2]))
